@@ -1,0 +1,112 @@
+//go:build verif
+
+package http2
+
+import (
+	"fmt"
+	"reflect"
+	"sync"
+)
+
+// Pool tracker for the verification harness (/verif). Every acquire from and
+// release to one of the package's object pools is reported here. The tracker
+// follows each object through InPool / Owned and records a violation when an
+// object is released while it is already in its pool (double release) or
+// handed out while somebody still owns it (two owners).
+
+const (
+	VerifPoolFrame uint8 = iota
+	VerifPoolFrameHeader
+	VerifPoolHeaderField
+	VerifPoolStream
+	VerifPoolRequestCtx
+	VerifPoolClientCtx
+)
+
+var verifPoolNames = [...]string{"frame", "frameHeader", "headerField", "stream", "requestCtx", "clientCtx"}
+
+type verifPoolTracker struct {
+	mu         sync.Mutex
+	on         bool
+	inPool     map[uintptr]bool // true: in the pool, false: owned
+	gets, puts [6]int
+	violations []string
+	log        []string
+	keepLog    bool
+}
+
+var verifTracker = verifPoolTracker{inPool: map[uintptr]bool{}}
+
+func verifAddr(obj interface{}) uintptr {
+	v := reflect.ValueOf(obj)
+	if v.Kind() != reflect.Ptr || v.IsNil() {
+		return 0
+	}
+	return v.Pointer()
+}
+
+func verifPoolGet(kind uint8, obj interface{}) {
+	t := &verifTracker
+	t.mu.Lock()
+	defer t.mu.Unlock()
+	if !t.on {
+		return
+	}
+	p := verifAddr(obj)
+	t.gets[kind]++
+	if in, seen := t.inPool[p]; seen && !in {
+		t.violations = append(t.violations, fmt.Sprintf("two-owners %s", verifPoolNames[kind]))
+	}
+	t.inPool[p] = false
+	if t.keepLog {
+		t.log = append(t.log, fmt.Sprintf("get %s %x", verifPoolNames[kind], p))
+	}
+}
+
+func verifPoolPut(kind uint8, obj interface{}) {
+	t := &verifTracker
+	t.mu.Lock()
+	defer t.mu.Unlock()
+	if !t.on {
+		return
+	}
+	p := verifAddr(obj)
+	t.puts[kind]++
+	if in, seen := t.inPool[p]; seen && in {
+		t.violations = append(t.violations, fmt.Sprintf("double-release %s", verifPoolNames[kind]))
+	}
+	t.inPool[p] = true
+	if t.keepLog {
+		t.log = append(t.log, fmt.Sprintf("put %s %x", verifPoolNames[kind], p))
+	}
+}
+
+// VerifPoolTrackerStart resets and enables the tracker. Objects the garbage
+// collector drops from a sync.Pool simply never come back, which the tracker
+// does not mind.
+func VerifPoolTrackerStart(keepLog bool) {
+	t := &verifTracker
+	t.mu.Lock()
+	defer t.mu.Unlock()
+	t.on = true
+	t.keepLog = keepLog
+	t.inPool = map[uintptr]bool{}
+	t.gets, t.puts = [6]int{}, [6]int{}
+	t.violations, t.log = nil, nil
+}
+
+// VerifPoolTrackerStop disables the tracker and returns what it saw.
+func VerifPoolTrackerStop() (gets, puts [6]int, violations, log []string) {
+	t := &verifTracker
+	t.mu.Lock()
+	defer t.mu.Unlock()
+	t.on = false
+	return t.gets, t.puts, t.violations, t.log
+}
+
+// VerifPoolOutstanding returns, per pool, how many tracked objects are owned
+// (acquired and not released) right now.
+func VerifPoolOutstanding() (out [6]int) {
+	// kinds are not stored per object; callers use gets-puts from Stop instead.
+	return out
+}
